@@ -21,6 +21,7 @@ def run(prog: Program, rep: Report, tier: str) -> None:
     rep.rule("R12.1", "Days table: 7 members, weekday 0..6 (Monday first), hex_rep == bit_rep == 2**(weekday+1), all distinct, bit 0 unused", 7)
     rep.rule("R12.2", "encoder normal form: empty -> ValueError; single day -> '{:02x}' of its bit; set, or sequence guarded by len == len(set) -> '{:02x}' of the sum of bit_rep; every other path raises ValueError", 6)
     rep.rule("R12.3", "decoder normal form: masks outside [2,254] raise ValueError; otherwise the result is exactly {d : d.hex_rep & mask != 0}", 100)
+    rep.rule("R12.5", "encoder and decoder are not memoised and return fresh values: no cache decorator, the decoder's result set is created inside the call (a shared mutable result would make a later decode of the same mask return whatever a caller did to the earlier result)", 2)
     rep.rule("R12.4", "lemma on the table: the bits are distinct powers of two in [2,128], so the sum over any subset has exactly its bits, lies in [2,254], fits two hex digits, and decoding returns the subset", 1)
     rep.trusted += ["format spec '02x' = at least two zero-padded lower-case hex digits; & on ints; sum(); set semantics (CPython docs)"]
     days = prog.cls(f"{SCHED}:Days")
@@ -128,6 +129,11 @@ def run(prog: Program, rep: Report, tier: str) -> None:
             rep.ok("R12.3", f"subset path", whered)
     if bad:
         rep.bad("R12.3", "decoder result", whered, f"{bad} path(s): {first_bad}", key="R12.3|result")
+    for f_, w_ in ((fi, wheree), (fd, whered)):
+        decos = [d for d in f_.decorators if any(x in d.split("(")[0].split(".")[-1] for x in ("cache", "lru_cache", "cached_property", "memoize"))]
+        rep.check(not decos, "R12.5", f"{f_.qualname} not memoised", w_, f"{f_.qualname} is decorated with {decos}: every caller of the same argument receives the same mutable object", key=f"R12.5|{f_.qualname}|memo")
+    fresh_bad = [o for o in rets if not (o.value[0] == "obj" and o.state.heap[o.value[1]].fresh)]
+    rep.check(not fresh_bad, "R12.5", "decoder result is created inside the call", whered, "the decoder returns an object that exists outside the call (module-level / default / cached set)", key="R12.5|decoder|fresh")
     rep.sample({"encoder_forms": list(forms), "decoder_paths": len(rets), "table": {m: en.members[m] for m in en.members}})
     rep.analysed["functions"] = sorted(funcs)
     rep.analysed["paths"] = len(outs)
